@@ -40,6 +40,9 @@ def run(ctx, focus):
     elif tr.distinct != nruns + 1:
         raise vf.Infra("AsyncHistory consumed %d of %d runs" % (tr.distinct - 1, nruns))
     rep.extra["recorded_runs_validated_by_tlc"] = nruns
+    if focus == "C05":
+        # every logger kind x policy x occupancy: flushed and descriptor-free when Destroy returns
+        rep.absorb(ctx.vh(["stopflush"], timeout=1800))
     rep.exhaustive = True
     rep.rule = ("AsyncLogger.tla model-checked for each policy (2 producers, capacity 2, safety + Stop liveness); "
                 "AsyncGen.tla behaviours - every sequence of %d operations over {event, disabled event, raw write, "
@@ -49,6 +52,12 @@ def run(ctx, focus):
                 "state, then conservation/FIFO/verbatim after Destroy; plus randomized 1-32 producer runs on fast, "
                 "slow and bursty appenders checked for conservation, no duplicates, per-producer FIFO.  "
                 "Non-trivial = distinct (policy, start occupancy, operation sequence)." % (7 if thorough else 5))
+    if focus == "C05":
+        rep.rule += (" For C05 additionally: 11 logger kinds (sync/async over file, rolling and console appenders, "
+                     "rolling-file logger sync/async x separate, console and file loggers) x 3 policies x item counts "
+                     "around the buffer size, built by Refresh: after Destroy returns every accepted item (all but the "
+                     "counted discards) is read back from the target, /proc/self/fd holds nothing under the log "
+                     "directory, appenders tolerate a second Stop.")
     rep.assumptions = ["TLC/SANY", "Go toolchain", "gated recording appender plugin (worker parked inside Append/Write)",
                        "negative observations ('still blocked') use a bounded wait on behaviour a correct implementation shows forever",
                        "no log call concurrent with Stop (premise of the property)"]
